@@ -56,6 +56,12 @@ Theorem RC_count_is_sharers_and_free_iff_zero : RC_counts_stmt.
 Proof. exact RC_counts_proof. Qed.
 Print Assumptions RC_count_is_sharers_and_free_iff_zero.
 
+(* the three statements above are parametrised by the body of GivMMRefCount::resize (history: served runs only); this is their
+   unconditional form for the body that is in /repo and that the extracted driver executes (allocate first, release afterwards) *)
+Theorem RC_run_repaired : RC_run_repaired_stmt.
+Proof. exact RC_run_repaired_proof. Qed.
+Print Assumptions RC_run_repaired.
+
 (* contents of the target handle after build, destroy, shared copy, logcopy, push_back, reallocate/resize, in any state
    satisfying the invariant *)
 Theorem Target_contents_structural : Target_contents_stmt.
